@@ -149,6 +149,17 @@ def link_disjoint(net, p, q):
 #   ['U', name]        a name that is not in the topology
 # --------------------------------------------------------------------------------------------------------------------
 
+def resolve_all(net, item):
+    """['LA', a, b] = every line element of the directed line a -> b, in order; other items -> one name"""
+    if item[0] == 'LA':
+        a, b = meshes.R(item[1]), meshes.R(item[2])
+        for (x, y, chain) in net.lines:
+            if x == a and y == b:
+                return list(chain[1:-1])
+        return [f'no line N{item[1]} -> N{item[2]}']
+    return [resolve(net, item)]
+
+
 def resolve(net, item):
     k = item[0]
     if k == 'R':
